@@ -62,6 +62,7 @@ def generate(rng, tier):
         mat = L.material(rng)
         cases.append({"q": q, "sq": [float(v) for v in sq], "dr": dr, "mat": mat, "fn": i % 3, "lowq": bool((i // 3) % 2),
                       "cutoff": rng.choice([dr[1], dr[-1] * 0.6, dr[-1] + 1.0]), "ops": list(seq),
+                      "gq": rng.choice([None, None, (None, q[-1] + 0.37), (q[0] - 0.05, q[-1] + 2.0), (None, q[-1])]),
                       "desc": {"ops": " ".join(seq), "fn": SL.FNS[i % 3], "lowq": bool((i // 3) % 2), "n_ops": len(seq), "r0_is_0": r0 == 0.0}})
     return cases
 
@@ -71,6 +72,8 @@ def make_stog(pystog, case):
     st = pystog.StoG(**{"NumberDensity": m["rho"], "<b_coh>^2": m["bcoh"], "<b_tot^2>": m["btot"],
                         "RealSpaceFunction": SL.FNS[case["fn"]], "OmittedXrangeCorrection": case["lowq"],
                         "FourierFilter": {"Cutoff": case["cutoff"]}, "Outputs": {"StemName": "c12"}})
+    if case.get("gq"):
+        st.qmin, st.qmax = case["gq"]
     st.dr = np.array(case["dr"], float)
     st.q_master[st.sq_title] = np.array(case["q"], float)
     st.sq_master[st.sq_title] = np.array(case["sq"], float)
